@@ -148,7 +148,7 @@ Lemma gen_delete_head a q r : gen_delete ((a, q) :: r) a = r.
 Proof. cbn [gen_delete]. rewrite Z.eqb_refl. reflexivity. Qed.
 
 Lemma dump_loop_is_generated pm bpm pl : keys_in_range pl -> forall ks0 ps0, ps0 = [] ->
-  packetPool_dumpUnlocked_loop1 (gen_get pm) gen_delete gen_keys (gen_keys pl) pl bpm ks0 ps0 = pool_dump pl.
+  packetPool_dumpUnlocked_loop1 (gen_get pm) gen_delete gen_keys (gen_keys pl) pl bpm ps0 ks0 = pool_dump pl.
 Proof.
   induction pl as [|[a q] r IH]; intros R ks0 ps0 ->; [reflexivity|].
   inversion R as [|? ? Ra Rr]; subst. simpl in Ra.
